@@ -172,6 +172,16 @@ void h_load(void)
 #ifdef KSYM_CONCRETE
   /* entry 0 is __ksymtab_f, entry 1 is f (names concrete, everything else about the entries symbolic) */
   namesel[0] = 4; namesel[1] = 2; getsym_fails[0] = getsym_fails[1] = 0; have_scn = have_data = 1; sh_entsize = 24;
+#if NSYM > 2
+  /* ... and entry 2 is a second symbol named f (a static helper and an exported global of the same name: .symtab lists
+     locals first, in any case both orders are explored since binding and visibility of each entry are symbolic);
+     addresses and sizes concrete */
+  namesel[2] = 2; getsym_fails[2] = 0;
+  /* what the ksymtab marking does not depend on is concrete: a kernel binary, FUNC symbols defined in section 1, address 0,
+     size 8; binding (LOCAL/GLOBAL/WEAK/GNU_UNIQUE) and visibility of every entry stay symbolic */
+  is_kernel = 1;
+  for (int i = 0; i < NSYM; i++) { sy[i].f4 = 0; sy[i].f5 = 8; sy[i].f3 = 1; sy[i].f1 = (sy[i].f1 & 0xf0) | 2; sy[i].f2 &= 3; }
+#endif
 #endif
 #ifdef KSYM_FOCUS
   /* the __ksymtab_ interplay needs two entries: everything the ksymtab marking does not depend on is concrete */
@@ -235,7 +245,12 @@ void h_load(void)
 #ifndef KSYM_CONCRETE
   COVER(ok && nsyms > 0 && !recorded(0) && namesel[0] == 2); COVER(!ok && have_scn && have_data && sh_entsize);
 #else
-  COVER(ok && is_kernel && recorded(1)); COVER(ok && !is_kernel);
+  COVER(ok && is_kernel && recorded(1));
+#if NSYM <= 2
+  COVER(ok && !is_kernel);
+#else
+  COVER(ok && recorded(1) && recorded(2) && (sy[1].f1 >> 4) == 0 && (sy[2].f1 >> 4) == 1);
+#endif
 #endif
   WITNESS_END();
 }
